@@ -158,7 +158,10 @@ Section BatchModel.
 
   (* ---- single instance: find_global_peaks is per (sample, channel); with
      refinement the rough peaks are flattened, refined from patch_source and
-     reshaped back *)
+     reshaped back.  This is the CLOSED FORM (the patch index of entry (b, c) is
+     written as b * C + c directly); the code's flatten -> valid_idx -> gather ->
+     scatter -> reshape path is C12/Flat.v `global_flat`, proved equal to this
+     (LemmasFlat.global_flat_is_single_batch). *)
   Variable rough : chan -> option peak.        (* global maximum of one channel, None below threshold *)
   Variable refine : chan -> peak -> inst.      (* integral refinement on the patch cut from that channel *)
 
